@@ -326,7 +326,10 @@ package interp
 //@ func (*lexer).lexOp
 //@   requires l.b == ""
 //@   ensures l.b == ""
+// An identifier is a letter or underscore followed by letters, digits and
+// underscores: it ends only before a character that cannot continue it.
 //@ func (*lexer).lexIdent
+//@   assert[C11] at call interp.(*lexer).unread: an-identifier-ends-only-before-a-character-that-cannot-continue-it: r != '_' && !('0' <= r && r <= '9') && !('a' <= r && r <= 'z') && !('A' <= r && r <= 'Z')
 //@   requires l.b == ""
 //@   ensures l.b == ""
 //@   loop "for" decreases srclen() - srcpos()
